@@ -2,6 +2,7 @@ import Mimic.Dispatch
 import Mimic.Extracted.Session
 import Mimic.Extracted.DispatchCode
 import MimicProofs.HandlersCode
+import MimicProofs.CommandLoop
 /-!
 # C13 — The application sees exactly the statements it must handle, once, in order
 
@@ -262,6 +263,30 @@ theorem init_db_is_code (E : Mimic.Py.Env S) (ur : S → Bool) (c : Connection S
       else ∃ (e : Bool) (a l w f : Nat),
         handle_init_db E ur c data = .ok { c with out := c.out ++ [Ev.session_use db, Ev.write (ok c e a l w f) true] } :=
   handle_init_db_spec E ur c data
+
+open MimicProofs.CommandLoop in
+/-- **A whole COM_INIT_DB exchange on the code** (one iteration of the generated command loop on the packet `0x02 · name`): the
+    application's `use` hears of the selection exactly once, with the name decoded in the client character set, before anything
+    is written; it hears nothing when the name does not decode; the client gets exactly one OK, or exactly one ERR iff decoding or
+    `use` failed; the loop goes on. -/
+theorem code_init_db_exchange (E : Mimic.Py.Env S) (cp : S → Nat) (pc : Nat → Mimic.Py.Bytes) (coldef : Nat → Nat → Mimic.Py.Bytes)
+    (parse : Connection S → Mimic.Py.Bytes → Option (ComStmtExecute S)) (app : S → Option (ResultSet S))
+    (ur : S → Bool) (fls : Mimic.Extracted.ParsersCode.ComFieldList S → S) (fcd : Nat → S → Mimic.Py.Bytes → Mimic.Py.Bytes)
+    (other : Nat → Connection S → Mimic.Py.Bytes → Except (Connection S) (Connection S)) (err : Connection S → Mimic.Py.Bytes) (af : Nat → Connection S → Mimic.Py.Bytes → Option (Connection S))
+    (c : Connection S) (rest : Mimic.Py.Bytes) :
+    let c1 : Connection S := { c with _executing := true }
+    match Mimic.Extracted.ParsersCode.parse_com_init_db E c.client_charset rest with
+    | none => command_step E cp pc coldef parse app ur fls fcd other err af c (2 :: rest)
+        = ({ c with _executing := false, out := c.out ++ [Ev.write (err { c with _executing := false }) true, Ev.reset_seq] }, true)
+    | some db =>
+      if ur db then
+        command_step E cp pc coldef parse app ur fls fcd other err af c (2 :: rest)
+          = ({ c with _executing := false,
+                      out := c.out ++ [Ev.session_use db, Ev.write (err { c with _executing := false, out := c.out ++ [Ev.session_use db] }) true, Ev.reset_seq] }, true)
+      else ∃ (e : Bool) (a l w f : Nat),
+        command_step E cp pc coldef parse app ur fls fcd other err af c (2 :: rest)
+          = ({ c with _executing := false, out := c.out ++ [Ev.session_use db, Ev.write (ok c1 e a l w f) true, Ev.reset_seq] }, true) :=
+  init_db_exchange E cp pc coldef parse app ur fls fcd other err af c rest
 
 end handlers
 
